@@ -36,6 +36,12 @@ def values_for(func, n, rng, k, dtype="float64"):
         return out
     if dtype.startswith("int") or dtype.startswith("uint"):
         alpha = INT_ALPHABET if dtype.startswith("int") else [0, 1, 2, 3, 7]
+        if func in ("max", "min", "nanmax", "nanmin", "first", "last", "nanfirst", "nanlast", "argmax", "argmin", "nanargmax", "nanargmin", "count", "any", "all"):
+            # the extremes of the dtype are data too (they coincide with the sentinels used as intermediate fills)
+            info = np.iinfo(dtype)
+            alpha = list(alpha) + [int(info.min), int(info.max)]
+        if func in ("sum", "nansum", "prod", "nanprod", "mean", "var", "std") and dtype in ("int8", "uint8"):
+            alpha = [a for a in alpha if a >= 0] if dtype == "uint8" else alpha
         for s in range(k):
             out.append(np.array([alpha[(s + i * (1 + s // len(alpha))) % len(alpha)] if s < len(alpha) else alpha[rng.integers(len(alpha))] for i in range(n)], dtype=dtype))
         return out
